@@ -584,6 +584,14 @@ pub fn gen(r: &mut Rng, n: usize) -> Vec<String> {
                 _ => r.below((max_total / nf) as u64 + 1) as usize,
             })
             .collect();
+        if r.chance(1, 2) {
+            // a small file strictly inside a piece: it neither starts on the piece's first byte nor reaches its end
+            let a = pl / 2 + r.below((pl / 8) as u64 + 1) as usize;
+            let b = 1 + r.below((pl / 4).max(1) as u64) as usize;
+            let rest = max_total.saturating_sub(a + b);
+            let c = if rest > 0 { 1 + r.below(rest as u64) as usize } else { 0 };
+            lens = vec![a, b, c];
+        }
         if family == 3 {
             // at least 11 pieces
             lens[0] = lens[0].max(10 * pl + 1);
